@@ -8,6 +8,10 @@ from tealer.teal.instructions.instructions import (
     PushBytes,
     IntcInstruction,
     BytecInstruction,
+    Less,
+    LessE,
+    Greater,
+    GreaterE,
 )
 
 from tealer.exceptions import TealerException
@@ -56,6 +60,29 @@ def is_int_push_ins(ins: Instruction) -> Tuple[bool, Optional[Union[int, str]]]:
             return True, value
         return True, None
     return False, None
+
+
+def mirrored_comparison(ins: Instruction) -> Instruction:
+    """Return the comparison instruction OP' such that `A B OP` computes the same value as `B A OP'`.
+
+    `int 3; global GroupSize; <` checks `3 < GroupSize` i.e. `GroupSize > 3`. Analyses which read a
+    comparison as "field OP constant" use this when the field is the second operand.
+
+    Args:
+        ins: A comparison instruction.
+
+    Returns:
+        The mirrored comparison instruction for <, <=, >, >=. ==, != and other instructions are returned as is.
+    """
+    if isinstance(ins, Less):
+        return Greater()
+    if isinstance(ins, LessE):
+        return GreaterE()
+    if isinstance(ins, Greater):
+        return Less()
+    if isinstance(ins, GreaterE):
+        return LessE()
+    return ins
 
 
 def is_byte_push_ins(ins: Instruction) -> Tuple[bool, Optional[str]]:
